@@ -24,6 +24,9 @@ theorem observed_calls_are_model : observedCalls = workerCalls true observedInvo
 /-- a key that carries fields beyond the user is still that user's request: the same calls, with the user as the query -/
 theorem observed_calls_composite_key : observedCallsCompositeKey = workerCalls true observedInvocations := by decide
 
+/-- an empty test list is handed on as the test list (the candidates of a user with nothing held out are "none", not "everything") -/
+theorem observed_calls_empty_test : observedCallsEmptyTest = workerCalls true observedInvocations := by decide
+
 /-- a key without a user passes no query -/
 theorem observed_calls_no_user : observedCallsNoUser = workerCalls false observedInvocations := by decide
 
